@@ -353,6 +353,11 @@ var alwaysPred Pred = nil
 //go:norace
 func Point(kind Kind, obj any, pred Pred) bool { return PointT(kind, obj, pred) != nil }
 
+// OnTeardown, if set, is called by the scheduler when the scenario of a run has ended (main returned, step
+// budget exhausted or a failure) and before the remaining tasks are unwound.  While unwinding, sim points
+// no longer block (see PointT), so mutual exclusion is not kept: observers that judge orderings stop here.
+var OnTeardown func()
+
 // PointT is Point returning the calling task (nil outside a run).
 //
 //go:norace
@@ -694,6 +699,9 @@ func Run(cfg Config, main func()) *Result {
 	raceDisable()
 	s.loop(res)
 	// tear down: release parked tasks one at a time; each unwinds with Goexit
+	if OnTeardown != nil {
+		OnTeardown()
+	}
 	s.abort.Store(true)
 	for round := 0; round < 50; round++ {
 		woke := false
